@@ -82,6 +82,9 @@ def gen_shell(rng, am, harm, nprim=None, ngen=None, zero_pad=0.25, region=None):
         for i in range(nprim):
             if nprim > 1 and rng.random() < zero_pad:
                 col.append(rng.choice(ZERO_FORMS))
+            elif rng.random() < 0.04:
+                # a real but tiny coefficient (the store has them: cc-pVDZ-DK3 / Ho, aug-cc-pVTZ-J / Ni): it is not a zero
+                col.append(num(rng, -24, -13, neg=True))
             else:
                 col.append(num(rng, -3, 1, neg=True))
         from decimal import Decimal
